@@ -230,7 +230,9 @@ class Engine:
         if k == 'return':
             val = st.frames[fid].get(0, UNIT)
             if not st.stack:
-                return [Outcome('return', val, st)]
+                o = Outcome('return', val, st)
+                o.locals = dict(st.frames[fid])
+                return [o]
             cfn, cfid, dest, target, name = st.stack.pop()
             del st.frames[fid]
             if self.log_enter:
@@ -521,7 +523,7 @@ class Engine:
                         snaps.append(self._read_lv(st, o[1]) if root[0] == 'L' else o)
                     else:
                         snaps.append(o)
-                st.events.append(('closure', rv['closure'], tuple(snaps)))
+                st.events.append(('closure', rv['closure'], tuple(snaps), len(st.conds)))
                 return ('agg', 'closure', rv['closure'], None, tuple(('upvar%d' % i, o) for i, o in enumerate(ops)))
             return ('unk', 'aggregate', rv.get('text', ''))
         if k == 'repeat':
@@ -646,7 +648,16 @@ class Engine:
         val = ('call', name, tuple(args), uid)
         if not pure:
             st.epoch += 1
-            st.events.append(('call', name, tuple(args), uid, fn.name, t['span']))
+            # values that `&mut local` arguments pointed to just before the call (position -> value), for rules that need the receiver
+            pre = {}
+            for i_, (a, aty) in enumerate(zip(args, t.get('arg_tys', []))):
+                if aty.startswith('&mut') and a[0] == 'ref':
+                    root = a[1]
+                    while root[0] in ('fld', 'idx'):
+                        root = root[1]
+                    if root[0] == 'L':
+                        pre[i_] = self._read_lv(st, a[1])
+            st.events.append(('call', name, tuple(args), uid, fn.name, t['span'], tuple(sorted(pre.items()))))
             # havoc everything reachable through &mut arguments
             for a, aty in zip(args, t.get('arg_tys', [])):
                 if aty.startswith('&mut') and a[0] == 'ref':
